@@ -143,10 +143,8 @@ class Index:
                     prev()
                 return match, skipped
 
-            if len(compiled_matches) > 1:
-                stop = compiled_matches[-1]
-            else:
-                stop = self.prefix
+            # scanning ends below the oldest wanted key of the last match
+            stop = compiled_matches[-1]
             if since:
                 stop += b"\x00" + since
             match, skipped = next_match()
